@@ -468,6 +468,8 @@ class Machine:
     def _project(self, st, v, path):
         for step in path:
             if isinstance(step, tuple) and step[0] == "as":
+                if isinstance(v, Str):
+                    continue
                 if isinstance(v, Sym):
                     v = self.concretize(st, v)
                 if isinstance(v, Adt) and v.variant != step[1]:
@@ -478,6 +480,8 @@ class Machine:
                 continue
             if isinstance(v, Sym):
                 v = self.concretize(st, v)
+            if isinstance(v, Str) and step == 0:
+                continue  # payload of Cow::Borrowed / Cow::Owned: the same content
             if isinstance(v, (Adt, Tup)):
                 if step >= len(v.fields):
                     raise AnalysisError("field %r of %r" % (step, v))
@@ -537,6 +541,9 @@ class Machine:
             fs = list(v.captures)
             fs[step] = self._update(st, fs[step], path[1:], new)
             return Clo(v.defpath, tuple(fs))
+        if isinstance(v, (Opq, Top)):
+            # a write into an opaque (external) value: the value stays unconstrained
+            return v
         raise AnalysisError("field update %r of %r" % (step, v))
 
     def store(self, st, loc, val):
@@ -673,6 +680,9 @@ class Machine:
                         return I(discr, "isize")
                 if not rv["variants"]:
                     return I(0, "isize")
+            h = getattr(self.world, "str_variant", None)
+            if h is not None and isinstance(v, Str):
+                return I(h(st, v, rv), "isize")
             raise AnalysisError("discriminant of %r" % (v,))
         if k == "binop":
             a = self.operand(st, fr, rv["a"])
@@ -991,6 +1001,10 @@ class Machine:
         r = self.world.call(self, st, callee, args, t)
         if r is None:
             h = self.models.get(callee["path"])
+            if h is None:
+                from . import models as _models
+
+                h = _models.pattern_model(callee["full"]) or _models.pattern_model(callee["path"])
             if h is not None:
                 r = h(self, st, callee, args, t)
         if r is None or r is INLINE:
